@@ -5,5 +5,5 @@ CONSTANTS MaxCalls = 3
           ExtDepth = 3
           ZeroStatusFix = TRUE
           InfoFix = FALSE
-INVARIANTS TypeOK L2ImpliesL1 HandlerOnlyAfterGate NoClientBytesBeforeCheckInStrict StrictPanicSilent Emit
+INVARIANTS TypeOK L2ImpliesL1Pure
 CHECK_DEADLOCK FALSE
